@@ -12,6 +12,9 @@ mod report;
 mod world;
 
 fn main() {
+    for (k, v) in [("GIT_AUTHOR_NAME", "veryl"), ("GIT_AUTHOR_EMAIL", "veryl"), ("GIT_COMMITTER_NAME", "veryl"), ("GIT_COMMITTER_EMAIL", "veryl")] {
+        unsafe { std::env::set_var(k, v) };
+    }
     let args: Vec<String> = std::env::args().collect();
     let id = args.get(1).cloned().unwrap_or_default();
     let mode = args.get(2).cloned().unwrap_or_else(|| "quick".into());
